@@ -9,6 +9,7 @@ import (
 	"encoding/hex"
 	"fmt"
 	"go/types"
+	"strconv"
 	"strings"
 
 	"golang.org/x/crypto/sha3"
@@ -224,4 +225,214 @@ func init() {
 			return res
 		}
 	})
+}
+
+// ---- ideal threshold signatures (BLS0GenerateThresholdKeyShares / Reconstruct) ----
+//
+// A threshold group is (group public key, t, share public keys with ids 1..n). A share
+// signature is the ideal signature under the share's key. Recover over k signatures succeeds
+// with the GROUP's ideal signature on the message iff every signature is a registered share
+// signature of the same group on the same message, under the id it was added with, the ids are
+// distinct and k >= t; otherwise it yields a string that verifies under no key. Correctness of
+// the real Lagrange recovery is assumed (C34 is not applicable to this technique).
+
+type thShare struct {
+	group string // group public key hex
+	t     int
+	id    string
+}
+
+func init() {
+	extraRegs = append(extraRegs, func() {
+		encPkg := "0chain.net/core/encryption"
+		bl := "github.com/herumi/bls-go-binary/bls."
+		externals[encPkg+".BLS0GenerateThresholdKeyShares"] = func(fr *frame, args []value) value {
+			p := fr.i.p
+			t, n := args[0].(int), args[1].(int)
+			orig := args[2].(iface)
+			os, ok := (*orig.v.(*value)).(structure)
+			if !ok {
+				panic(unsupported("GenerateThresholdKeyShares: unexpected original key"))
+			}
+			gpub, _ := os[1].([]value)
+			group := hex.EncodeToString(valuesToBytes(gpub))
+			pkg := fr.i.prog.ImportedPackage(encPkg)
+			ctor := pkg.Func("NewBLS0ChainThresholdScheme")
+			ptrT := ctor.Signature.Results().At(0).Type()
+			if p.thShares == nil {
+				p.thShares = map[string]thShare{}
+			}
+			var out []value
+			for i := 1; i <= n; i++ {
+				sp := call(fr.i, fr, fr.callpos, ctor, nil).(*value)
+				s := (*sp).(structure)
+				inner := s[0].(structure)
+				p.keyCounter++
+				priv := h256([]byte(fmt.Sprintf("verif-priv-%d", p.keyCounter)))
+				pub := h256([]byte("pub:"), priv)
+				inner[0] = bytesToValues(priv)
+				inner[1] = bytesToValues(pub)
+				id := fmt.Sprintf("%x", i)
+				setBlsID(s[1], id)
+				p.thShares[hex.EncodeToString(pub)] = thShare{group, t, id}
+				out = append(out, iface{t: ptrT, v: sp})
+			}
+			return tuple{out, iface{}}
+		}
+		recv := "(*" + encPkg + ".BLS0ChainThresholdScheme)."
+		externals[recv+"SetID"] = func(fr *frame, args []value) value {
+			s := (*args[0].(*value)).(structure)
+			if !setBlsID(s[1], args[1].(string)) {
+				return fr.i.makeError("err blsIDSetHexStr")
+			}
+			return iface{}
+		}
+		externals[recv+"GetID"] = func(fr *frame, args []value) value {
+			s := (*args[0].(*value)).(structure)
+			return getBlsID(s[1])
+		}
+		externals["(*"+encPkg+".BLS0ChainReconstruction).Add"] = func(fr *frame, args []value) value {
+			rec := (*args[0].(*value)).(structure)
+			tss := args[1].(iface)
+			ts, ok := (*tss.v.(*value)).(structure)
+			if !ok || len(ts) != 2 {
+				return fr.i.makeError("invalid signature scheme")
+			}
+			sig := args[2].(string)
+			if sig == "" {
+				return fr.i.makeError("empty signature")
+			}
+			if _, err := hex.DecodeString(sig); err != nil {
+				return fr.i.makeError("invalid signature encoding")
+			}
+			ids, _ := rec[2].([]value)
+			sigs, _ := rec[3].([]value)
+			rec[2] = append(append([]value{}, ids...), cpPlain(ts[1]))
+			rec[3] = append(append([]value{}, sigs...), blsSigs{[]string{sig}})
+			return iface{}
+		}
+		externals["(*"+bl+"Sign).Recover"] = func(fr *frame, args []value) value {
+			p := fr.i.p
+			sigs, _ := args[1].([]value)
+			ids, _ := args[2].([]value)
+			garbage := func() value {
+				parts := [][]byte{[]byte("unrecoverable")}
+				for _, s := range sigs {
+					if m, ok := s.(blsSigs); ok && len(m.sigs) == 1 {
+						parts = append(parts, []byte(m.sigs[0]))
+					}
+				}
+				*args[0].(*value) = blsSigs{[]string{hex.EncodeToString(h256(parts...))}}
+				return iface{}
+			}
+			if len(sigs) == 0 || len(sigs) != len(ids) {
+				return fr.i.makeError("err blsSignatureRecover")
+			}
+			seen := map[string]bool{}
+			var group, msg string
+			tNeed := 0
+			ok := true
+			for i := range sigs {
+				m, isM := sigs[i].(blsSigs)
+				id := getBlsID(ids[i])
+				isS := id != ""
+				if !isM || !isS || len(m.sigs) != 1 {
+					panic(unsupported("bls.Sign.Recover outside the threshold model"))
+				}
+				if seen[id] {
+					return fr.i.makeError("err blsSignatureRecover: duplicate id")
+				}
+				seen[id] = true
+				rec, known := p.sigs[strings.ToLower(m.sigs[0])]
+				if !known {
+					ok = false
+					continue
+				}
+				sh, isShare := p.thShares[rec[0]]
+				if !isShare || sh.id != id {
+					ok = false
+					continue
+				}
+				if group == "" {
+					group, msg, tNeed = sh.group, rec[1], sh.t
+				} else if group != sh.group || msg != rec[1] {
+					ok = false
+				}
+			}
+			if !ok || group == "" || len(sigs) < tNeed {
+				return garbage()
+			}
+			gp, _ := hex.DecodeString(group)
+			h, _ := hex.DecodeString(msg)
+			sig := hex.EncodeToString(h256([]byte("sig"), gp, h))
+			p.sigs[sig] = [2]string{group, msg}
+			*args[0].(*value) = blsSigs{[]string{sig}}
+			return iface{}
+		}
+		externals["(*"+bl+"Sign).SerializeToHexStr"] = func(fr *frame, args []value) value {
+			m, ok := (*args[0].(*value)).(blsSigs)
+			if !ok || len(m.sigs) != 1 {
+				panic(unsupported("bls.Sign.SerializeToHexStr outside the model"))
+			}
+			return m.sigs[0]
+		}
+	})
+}
+
+// bls.ID (nested C structs ending in a uint64 array) carries the id as a number in its first word.
+func blsIDLeaf(v value) array {
+	for {
+		switch x := v.(type) {
+		case structure:
+			if len(x) == 0 {
+				return nil
+			}
+			v = x[0]
+		case array:
+			return x
+		default:
+			return nil
+		}
+	}
+}
+
+func setBlsID(v value, hexID string) bool {
+	n, err := strconv.ParseUint(hexID, 16, 64)
+	leaf := blsIDLeaf(v)
+	if err != nil || leaf == nil || len(leaf) == 0 {
+		return false
+	}
+	leaf[0] = n
+	return true
+}
+
+func getBlsID(v value) string {
+	leaf := blsIDLeaf(v)
+	if leaf == nil || len(leaf) == 0 {
+		return ""
+	}
+	n, ok := leaf[0].(uint64)
+	if !ok || n == 0 {
+		return ""
+	}
+	return strconv.FormatUint(n, 16)
+}
+
+// cpPlain deep-copies a plain aggregate (nested structs/arrays of scalars).
+func cpPlain(v value) value {
+	switch x := v.(type) {
+	case structure:
+		out := make(structure, len(x))
+		for i, e := range x {
+			out[i] = cpPlain(e)
+		}
+		return out
+	case array:
+		out := make(array, len(x))
+		for i, e := range x {
+			out[i] = cpPlain(e)
+		}
+		return out
+	}
+	return v
 }
